@@ -309,3 +309,79 @@ def run(chk):
         r4.ob("parse_internal/%s before Statements only under the #! test" % expr_str(prog, f, n)[:30], ok, "%s:%d" % (f["file"], n["l"]), f["q"],
               "input is consumed before parsing without the `#!` test (facts: %s)" % facts)
     r4.require(2, "pre-parse advances")
+
+    # ------------------------------------------------------------------ R19.6 the configured path lists keep their order
+    r6 = chk.rule("R19.6", "the use-path and module-path lists reach the search loops in the order the embedder configured: what initialises them passes the given vector through "
+                           "(or substitutes the one-element default for an empty one), and afterwards single elements are inserted, nothing is sorted, erased, swapped or reassigned",
+                  "use() / eval_file() search the configured use paths in order: the first configured directory that has the file wins")
+    CBQ = "chaiscript::ChaiScript_Basic"
+    FIELDS = {CBQ + "::m_use_paths", CBQ + "::m_module_paths"}
+    KEEP = {"empty", "size", "begin", "end", "cbegin", "cend", "push_back", "emplace_back", "insert", "operator[]", "at", "front", "back", "data"}
+    ctors = [f for f in prog.fns if f.get("cls") == CBQ and f["kind"] == "ctor" and not f.get("implicit") and f["tk"] != "pattern"]
+    r6.anchor(ctors, "ChaiScript_Basic constructors")
+    seen6 = set()
+    ninit = 0
+    for c in ctors:
+        for i in c.get("inits", []):
+            if i.get("fq") not in FIELDS:
+                continue
+            init = strip_casts(i.get("init") or {})
+            while init.get("k") == "construct" and init.get("args") and len(init["args"]) == 1:
+                init = strip_casts(init["args"][0])
+            short = i["fq"].split("::")[-1]
+            if init.get("k") == "call" and init.get("fn") is not None:
+                g = prog.fn_by_id(c, init["fn"])
+                key = (short, g["q"] if g else "?")
+                if key in seen6:
+                    continue
+                seen6.add(key)
+                ninit += 1
+                if g is None or not g.get("body"):
+                    r6.ob("%s is initialised through %s" % (short, init.get("name")), False, c.where, c["q"], "initialiser not analysable")
+                    continue
+                chk.touched([g, c])
+                pv = {p.get("vid") for p in g["params"]} if g.get("params") else set()
+                bad = []
+                for n in walk(g["body"]):
+                    if n.get("k") != "call":
+                        continue
+                    touches = [x for x in walk(n) if x.get("k") == "ref" and x.get("rk") == "param"]
+                    if not touches:
+                        continue
+                    nm = n.get("name")
+                    if nm in ("move", "forward") or nm in KEEP:
+                        continue
+                    bad.append("%s (line %d)" % (expr_str(prog, g, n)[:60], n["l"]))
+                rets = [n for n in walk(g["body"]) if n.get("k") == "return" and n.get("e") is not None]
+                passes = any(any(x.get("k") == "ref" and x.get("rk") == "param" for x in walk(r_["e"])) for r_ in rets)
+                r6.ob("%s: %s hands the configured vector through unchanged" % (short, strip_targs(g["q"]).split("::")[-1]), passes and not bad, g.where, g["q"],
+                      "operations on the configured vector before it is stored: %s - the order in which the embedder listed the directories is lost (or entries are dropped)" % (bad or "it is not returned"))
+            else:
+                ninit += 1
+                okd = init.get("k") == "ref" and init.get("rk") == "param" or (init.get("k") == "call" and init.get("name") == "move")
+                r6.ob("%s is initialised from the constructor's parameter" % short, bool(okd), c.where, c["q"], "initialised from `%s`" % expr_str(prog, c, init)[:80])
+    nmut = 0
+    for f in prog.fns:
+        if f["tk"] == "pattern" or not f["file"].startswith("include/"):
+            continue
+        for n in walk(f["body"]):
+            tgt = None
+            if n.get("k") == "call" and n.get("obj") is not None and strip_casts(n["obj"]).get("q") in FIELDS:
+                tgt, op = strip_casts(n["obj"]), n.get("name")
+            elif n.get("k") == "assign" and strip_casts(n["lhs"]).get("q") in FIELDS:
+                tgt, op = strip_casts(n["lhs"]), "operator="
+            elif n.get("k") == "call" and n.get("obj") is None and any(x.get("k") == "member" and x.get("q") in FIELDS for a in n.get("args") or [] for x in walk(a)) and \
+                    n.get("name") in ("sort", "stable_sort", "unique", "reverse", "rotate", "shuffle", "swap", "remove", "remove_if", "partition", "stable_partition", "nth_element", "partial_sort", "erase"):
+                tgt, op = next(x for a in n["args"] for x in walk(a) if x.get("k") == "member" and x.get("q") in FIELDS), n.get("name")
+            if tgt is None or op in ("empty", "size", "begin", "end", "cbegin", "cend", "operator[]", "at", "front", "back", "data"):
+                continue
+            nmut += 1
+            ident = "%s: %s.%s" % (strip_targs(f["q"]), tgt["q"].split("::")[-1], op)
+            if ident in seen6:
+                continue
+            seen6.add(ident)
+            single = op in ("push_back", "emplace_back") or (op == "insert" and len([a for a in n.get("args") or [] if a.get("k") != "defarg"]) == 2)
+            r6.ob(ident + " adds a single element", single, "%s:%d" % (f["file"], n["l"]), f["q"],
+                  "`%s` can reorder or drop configured directories" % expr_str(prog, f, n)[:80])
+    r6.anchor(ninit >= 2, "initialisations of m_use_paths / m_module_paths (found %d)" % ninit)
+    r6.require(2, "obligations")
